@@ -10,7 +10,7 @@ import copy
 
 import numpy as np
 
-from .. import etsim, iosim, seams_fs
+from .. import etsim, iosim, seams_fs, seams_h5
 from ..digest import Trace, digest
 
 PROP = 'C11'
@@ -37,12 +37,17 @@ PROBES = ['multi_chunk_read', 'overlap_iteration_served', 'tensor_name_read',
           'enum_permuted', 'numbering_permuted', 'join_direct',
           'P_ge_10', 'three_chunks', 'two_chunks', 'skip_last_default',
           'stride_change', 'checkpoint_read', 'phase_offset_outputs',
-          'checkpoint_arrays_compared', 'split_per_it_read']
+          'checkpoint_arrays_compared', 'split_per_it_read',
+          'io_fault_fired', 'io_fault_raise_accepted',
+          'read_after_io_fault_checked']
 COMPONENTS = {
     'aurel.reading (iterations, get_content, read_data/read_ET_data, '
     'read_ET_variables, read_ET_group_or_var, join_chunks, fixij, name maps)':
     'real', 'h5py + tmpfs directory': 'real',
     'Einstein Toolkit / Carpet writer': 'stub (etsim model, real HDF5 files)',
+    'I/O errors (EIO when a data file is opened)': 'simulated (h5py proxy '
+    'inside aurel.reading fails the n-th open of one call, 30% of the runs); '
+    'that call may raise, every later call must be exact',
     'glob.glob / os.listdir order': 'simulated (seeded permutation of the '
                                     'real result)',
     'set/dict order': 'real, 3 PYTHONHASHSEED classes'}
@@ -138,6 +143,21 @@ def generate(rng, tier):
             ops.append(op)
     if not ops:
         ops.append({'op': 'iterations', 'skip_last': False})
+    # I/O-error runs are separate from the fault-free ones (30%), and only
+    # where every call looks at all restarts (what a failed call recorded
+    # does not change what a later call can see then)
+    gf = rng.child('iofaults')
+    cfg['io_faults'] = gf.chance(0.3) and not any(
+        o.get('skip_last') for o in ops)
+    if cfg['io_faults']:
+        for o in ops[:-1]:
+            if o['op'] in ('read', 'iterations') and not o.get('chk') \
+                    and gf.chance(0.5):
+                o['fault'] = {'kind': 'open_r', 'err': 'EIO',
+                              'at': gf.weighted([(1, 4), (2, 3), (3, 2),
+                                                 (4, 2), (6, 1), (9, 1)]),
+                              'when': gf.weighted([('before', 3),
+                                                   ('after', 1)])}
     return {'config': cfg, 'enum': enum, 'ops': ops}
 
 
@@ -197,6 +217,8 @@ def simplify(run):
             if ok:
                 yield c
     for i, o in enumerate(run['ops']):
+        if o.get('fault'):
+            c = copy.deepcopy(run); del c['ops'][i]['fault']; yield c
         if o['op'] == 'read':
             if len(o['it']) > 1:
                 for j in range(len(o['it'])):
@@ -208,6 +230,11 @@ def simplify(run):
 
 # ---------------------------------------------------------------------------
 def execute(run):
+    with seams_h5.h5_faults() as plan:
+        return _execute(run, plan)
+
+
+def _execute(run, plan):
     import h5py
     import aurel
     import aurel.reading as rd
@@ -215,6 +242,7 @@ def execute(run):
     tr = Trace()
     viol, faults, probes = [], {}, {}
     compared = [0]
+    after_fault = False
 
     def probe(k, n=1):
         probes[k] = probes.get(k, 0) + n
@@ -253,11 +281,22 @@ def execute(run):
                 break
             if op['op'] == 'iterations':
                 vis = cat.call(range(nres), op['skip_last'])
+                plan.arm(op.get('fault'))
                 try:
                     res = aurel.iterations(param, skip_last=op['skip_last'],
                                            verbose=False)
                     tr.event('iterations', keys=sorted(map(str, res)))
+                    if plan.disarm() is not None:
+                        fault('io_fault_fired')
+                        after_fault = True
+                except seams_h5.InjectedIOError:
+                    plan.disarm()
+                    fault('io_fault_fired')
+                    probe('io_fault_raise_accepted')
+                    after_fault = True
+                    tr.event('iterations', outcome='injected')
                 except ImportError:
+                    plan.disarm()
                     tr.event('iterations', outcome='ImportError')
                     if vis:
                         viol.append({'sig': 'iterations:raised:ImportError',
@@ -327,12 +366,22 @@ def execute(run):
                             for r in (vis if op['restart'] < 0
                                       else [op['restart']])
                             if r < nres)
+            plan.arm(op.get('fault'))
+            fired = None
             try:
                 got = aurel.read_data(param, **kwargs)
+                fired = plan.disarm()
             except Exception as e:  # noqa: BLE001
+                fired = plan.disarm()
                 name, site = type(e).__name__, iosim.aurel_site(e)
-                tr.event('read', op=op, outcome=name, site=site)
-                if not vis or (op['restart'] >= 0
+                tr.event('read', op=op, outcome=name, site=site,
+                         fired=(fired or {}).get('what'))
+                if fired is not None:
+                    # the injected error surfaced; this call promises nothing
+                    fault('io_fault_fired')
+                    probe('io_fault_raise_accepted')
+                    after_fault = True
+                elif not vis or (op['restart'] >= 0
                                and op['restart'] not in vis):
                     probe('nothing_to_process')
                 elif other_cls:
@@ -377,6 +426,16 @@ def execute(run):
                 viol.append({'sig': 'args_mutated:read_data', 'op': opi,
                              'msg': f'op#{opi} read_data changed its '
                                     f'arguments: {kwargs}'})
+            if fired is not None:
+                # the library carried on after the error (the catalogue skips
+                # a restart it cannot read, for this call): what this call
+                # lost is C12's subject; every later call is checked in full
+                fault('io_fault_fired')
+                probe('io_fault_swallowed')
+                after_fault = True
+                continue
+            if after_fault:
+                probe('read_after_io_fault_checked')
             if not op['vars']:
                 probe('all_vars_read')
             if any(v in etsim.AUREL_TENSORS for v in op['vars']):
